@@ -391,6 +391,31 @@ func genDNS(r *c.Rng, k *Case) {
 	}
 	k.Mut = c.Pick(r, dnsMuts)
 	w.Records = dnsRecords(r, k.Mut, k.Token, k.Acct)
+	size := 0
+	for _, rec := range w.Records {
+		size += len(rec) + 16
+	}
+	if !k.fixedID && size < 900 && r.Chance(1, 12) {
+		// published by a loopback name server and looked up by the real client (net.LookupTXT)
+		w.Real = true
+		k.Value = c.Pick(r, []string{"example.com", "*.example.com", "a.b.example.org", "www.example.com"})
+		k.Mut = "real-client+" + k.Mut
+		exp := digestB64(expectedKeyAuth(k.Token, k.Acct))
+		switch r.Intn(8) {
+		case 0:
+			w.Records = []string{`"` + exp + `"`}
+			k.Mut += "+quoted"
+		case 1:
+			w.Records = []string{" " + exp + " ", "v=spf1 -all"}
+			k.Mut += "+spaces"
+		case 2:
+			w.Records = []string{` "` + exp + `" `}
+			k.Mut += "+space-quoted"
+		case 3:
+			w.RCode = c.Pick(r, []string{"nxdomain", "servfail", "refused"})
+			k.Mut += "+" + w.RCode
+		}
+	}
 }
 
 // ---------- tls-alpn-01 ----------
@@ -620,6 +645,18 @@ func genCase(r *c.Rng) *Case {
 		k.Typ = "unknown"
 		k.Value = "example.com"
 	}
+	if k.Wire == nil && k.Acct >= 0 && r.Chance(1, 12) {
+		switch r.Intn(3) {
+		case 0, 1: // the response is the right one for a VICTIM's key; the requester's JWK carries the victim's thumbprint as its key id
+			victim := k.Acct
+			k.Acct = otherAcct(r, victim)
+			k.JWKKid = thumbs[victim]
+			k.Mut += "+kid-is-victim-thumbprint"
+		default: // the right response for the requester's own key, whose JWK carries some other key id (or none)
+			k.JWKKid = c.Pick(r, []string{"client-chosen-id", "-", thumbs[otherAcct(r, k.Acct)]})
+			k.Mut += "+kid-arbitrary"
+		}
+	}
 	return k
 }
 
@@ -672,6 +709,35 @@ func corner() []*Case {
 	for _, t := range []string{"dns", "ip", "pi", "wu", "wd", "other"} {
 		for _, raw := range []string{"example.com", "*.example.com", "*.*.example.com"} {
 			out = append(out, &Case{Op: "types", IDType: t, Raw: raw})
+		}
+	}
+	// the key id of a JWK is not the key: the host serves the key authorization of account 0, the requester is account 3
+	// whose JWK says kid = thumbprint of account 0
+	add(func(k *Case) {
+		k.Acct, k.Typ, k.Mut, k.JWKKid = 3, "http", "exact+kid-is-victim-thumbprint", thumbs[0]
+		k.HTTP = &HTTPW{Status: 200, Body: []byte(expectedKeyAuth(tok, 0))}
+	})
+	add(func(k *Case) {
+		k.Acct, k.Typ, k.Mut, k.JWKKid = 3, "dns", "exact+kid-is-victim-thumbprint", thumbs[0]
+		k.DNS = &DNSW{Records: []string{digestB64(expectedKeyAuth(tok, 0))}}
+	})
+	add(func(k *Case) {
+		k.Acct, k.Typ, k.Mut, k.JWKKid = 3, "http", "exact+kid-arbitrary", "client-chosen-id"
+		k.HTTP = &HTTPW{Status: 200, Body: []byte(expectedKeyAuth(tok, 3))}
+	})
+	// the real client's LookupTxt at a loopback name server: records exactly as published
+	for a := 0; a < 2; a++ {
+		a := a
+		exp := digestB64(expectedKeyAuth(tok, a))
+		for _, d := range []DNSW{{Records: []string{exp}}, {Records: []string{"v=spf1 -all", exp}}, {Records: []string{`"` + exp + `"`}}, {Records: []string{" " + exp}},
+			{Records: []string{exp + " "}}, {Records: []string{` "` + exp + `" `}}, {Records: []string{exp}, RCode: "nxdomain"}, {Records: []string{exp}, RCode: "servfail"},
+			{Records: nil}, {Records: []string{""}}, {Records: []string{exp[:20], exp[20:]}}} {
+			d := d
+			d.Real = true
+			for _, id := range []string{"example.com", "*.example.com"} {
+				id := id
+				add(func(k *Case) { k.Acct, k.Typ, k.Mut, k.Value, k.DNS = a, "dns", "real-client", id, &d })
+			}
 		}
 	}
 	// every challenge of the authorization fails: it must stay pending
